@@ -4,7 +4,9 @@ definition of the hand-written model each must equal.  `generate(repo)` returns 
 import os, re, json, hashlib
 import rsfront
 from rsfront import Unsupported
-from rs2lean import (Unit, StructInfo, FnTr, Val, Var, translate_fn, parse_ty, ty_of_tokens, lit_lean, lname, INT)
+from rs2lean import (Unit, StructInfo, FnTr, Val, Var, translate_fn, parse_ty, ty_of_tokens, lit_lean, lname, INT, const_eval,
+                     is_arr, TYCTX)
+import rs2lean
 
 XOSHIRO_FILES = ["splitmix64", "xoroshiro64star", "xoroshiro64starstar", "xoroshiro128plus", "xoroshiro128plusplus",
                  "xoroshiro128starstar", "xoshiro128plus", "xoshiro128plusplus", "xoshiro128starstar",
@@ -27,9 +29,18 @@ def prim_read_into(width):
         if dst[0] != "path" or len(dst[1]) != 1:
             raise Unsupported("read_*_into destination")
         v = tr.scope.get(dst[1][0])
+        ety = "u32" if width == 32 else "u64"
+        if v is not None and v.elems is None and v.view is None and is_arr(v.ty if v.ty is not None else tr.inferred.get(v.key)):
+            # a large (non-flattened) destination: all its elements are overwritten
+            ty = v.ty if v.ty is not None else tr.inferred.get(v.key)
+            if ty[1] is None:
+                tr.infer(v.key, ("arr", ety, ty[2]))
+            elif rs2lean.unwrap_ty(ty[1]) != ety:
+                raise Unsupported("read_*_into into an array of another element type")
+            tr.emit(f"let {v.lean} := ({'readU32s' if width == 32 else 'readU64s'} {src.atom()} {ty[2]}).toArray;")
+            return Val("()", "unit")
         if v is None or v.elems is None:
             raise Unsupported("read_*_into into a non-flattened array")
-        ety = "u32" if width == 32 else "u64"
         tr.infer(v.key, ("arr", ety, len(v.elems)))
         for i, x in enumerate(v.elems):
             tr.emit(f"let {x.lean} := {'le32At' if width == 32 else 'le64At'} {src.atom()} {i};")
@@ -158,7 +169,11 @@ def emit_unit(u, order, exclude=()):
                     d = d.replace("def seed_from_u64 ", "def seed_from_u64 (rec_from_seed : List U8 → " + u.sinfo.lean + ") ", 1)
             else:
                 d = translate_fn(u, name)
+            ia = rs2lean.LAST.get((u.name, name), {}).get("ignored_asserts")
+            if ia:
+                ASSERTS.setdefault(u.name, {})[name] = ia
             missing = [m for m in re.findall(re.escape(u.namespace) + r"\.(\w+)", d) if m not in done and m != name]
+            missing += [n for n, full in getattr(u, "extern", {}).items() if n in exclude and re.search(re.escape(full) + r"\b", d)]
             if missing:
                 skipped[name] = f"depends on {missing[0]}, which is not translated"
                 continue
@@ -172,6 +187,7 @@ def emit_unit(u, order, exclude=()):
     return "\n".join(out), done, skipped
 
 ORDER = ["next_u32", "next_u64", "fill_bytes", "jump", "long_jump", "from_seed", "seed_from_u64"]
+ASSERTS = {}      # unit -> fn -> assert!/debug_assert! statements that were skipped (panics are C14's subject)
 
 def generate_defs(repo, exclude=None):
     exclude = exclude or {}
@@ -236,7 +252,80 @@ PROOFS = {
     # tactic scripts tried in order (first | …); `rfl` is by far the common case: the translation unfolds to the model
     "next_u32": "ext_tie_step", "next_u64": "ext_tie_step", "fill_bytes": "ext_tie_fill", "jump": "ext_tie_jump",
     "long_jump": "ext_tie_jump", "from_seed": "ext_tie_seed", "seed_from_u64": "ext_tie_seed",
+    # rand_hc / rand_isaac: see the proof scripts below (bridge lemmas: Rngs/Lib/ExtTieBlock.lean, ExtTieShapes.lean)
+    "hc_step_p": "ext_tie_hc_step", "hc_step_q": "ext_tie_hc_step",
+    "isaac_ind": "ext_tie_isaac_ind", "isaac_rngstep": "ext_tie_isaac_step", "isaac_mix": "ext_tie_isaac_step",
 }
+
+# ---- proof scripts of the block generators.  Each is `first | fast path | generic path`: the fast path rewrites the model side
+# with the shape lemma of the pinned translation (ExtTieShapes.lean) and closes syntactically; the generic path unfolds both
+# sides (`simp only`) and is what survives harmless rewrites of the source.
+def _hc_helpers():
+    return ("\n  have hp : Ext.Hc128Core.step_p = Hc128.stepPC := by\n    funext st i i511 i3 i10 i12; exact ExtTie.Hc128Core.step_p st i i511 i3 i10 i12"
+            "\n  have hq : Ext.Hc128Core.step_q = Hc128.stepQC := by\n    funext st i i511 i3 i10 i12; exact ExtTie.Hc128Core.step_q st i i511 i3 i10 i12")
+
+def proof_hc_generate(name):
+    return ("\n  intro st results" + _hc_helpers() +
+            "\n  first"
+            "\n  | exact (show Ext.Hc128Core.generate st results = ExtShape.Hc128Core.generate Ext.Hc128Core.step_p Ext.Hc128Core.step_q st results"
+            "\n             from rfl).trans (by rw [hp, hq]; exact ExtShape.Hc128Core.generate_eq st results)"
+            "\n  | (rw [Hc128.generate_hoisted]"
+            "\n     simp only [Ext.Hc128Core.generate, hp, hq, Hc128.blockWith, Hc128.TABLE, List.foldl, Hc128.idx, Hc128.bases, Hc128.USIZE]"
+            "\n     split <;> simp only [Hc128.stepPC_counter, Hc128.stepQC_counter])")
+
+def proof_hc_sixteen(name):
+    return ("\n  intro st" + _hc_helpers() +
+            "\n  first"
+            "\n  | exact (show Ext.Hc128Core.sixteen_steps st = ExtShape.Hc128Core.sixteen_steps Ext.Hc128Core.step_p Ext.Hc128Core.step_q st"
+            "\n             from rfl).trans (by rw [hp, hq]; exact ExtShape.Hc128Core.sixteen_steps_eq st)"
+            "\n  | (rw [Hc128.sixteenSteps_hoisted]"
+            "\n     simp only [Ext.Hc128Core.sixteen_steps, hp, hq, Hc128.feedWith, Hc128.TABLE, List.foldl, Hc128.idx, Hc128.bases, Hc128.USIZE]"
+            "\n     split <;> simp only [Hc128.stepPC_counter, Hc128.stepQC_counter])")
+
+def proof_hc_init(name):
+    return ("\n  intros"
+            "\n  have h16 : Ext.Hc128Core.sixteen_steps = Hc128.sixteenSteps := funext ExtTie.Hc128Core.sixteen_steps"
+            "\n  simp only [Ext.Hc128Core.init, ExtTie.Hc128Fns.f1, ExtTie.Hc128Fns.f2, h16, Hc128.init, foldl_range'_add, ← BitVec.ofNat_add,"
+            "\n    Hc128.expandAt, Nat.reduceAdd, Nat.reduceSub, List.take, List.drop, List.cons_append, List.nil_append, List.foldl_cons,"
+            "\n    List.foldl_nil, BitVec.ofNat_eq_ofNat]")
+
+def proof_hc_from_seed(name):
+    return ("\n  intro seed"
+            "\n  simp only [Ext.Hc128Core.from_seed, ExtTie.Hc128Core.init]"
+            "\n  rfl")
+
+def proof_isaac(fn):
+    def f(name):
+        G = name.split(".")[0]
+        w = 64 if "64" in G else 32
+        if fn == "generate":
+            return (f"\n  intro st results"
+                    f"\n  have hr : Ext.{G}.rngstep = Isaac.rngstepT Isaac.params{w} := by"
+                    f"\n    funext mem results mix a b base m m2; exact ExtTie.{G}.rngstep mem results mix a b base m m2"
+                    f"\n  first"
+                    f"\n  | exact (show Ext.{G}.generate st results = ExtShape.{G}.generate Ext.{G}.rngstep st results from rfl).trans"
+                    f"\n      (by rw [hr]; exact ExtShape.{G}.generate_eq st results)"
+                    f"\n  | (rw [← Isaac.generateT_eq]; simp -zeta only [Ext.{G}.generate, hr]; rfl)")
+        if fn == "init":
+            return (f"\n  intro mem rounds"
+                    f"\n  have hm : Ext.{G}.mix = Isaac.mixT Isaac.params{w} := by"
+                    f"\n    funext a b c d e f g h; exact ExtTie.{G}.mix a b c d e f g h"
+                    f"\n  first"
+                    f"\n  | exact (show Ext.{G}.init mem rounds = ExtShape.{G}.init Ext.{G}.mix mem rounds from rfl).trans"
+                    f"\n      (by rw [hm]; exact ExtShape.{G}.init_eq mem rounds)"
+                    f"\n  | (rw [← Isaac.initT_eq]; simp -zeta only [Ext.{G}.init, hm]; rfl)")
+        # from_seed / seed_from_u64: the translated `init` is replaced by the model's; the key array (`[w(0); RAND_SIZE]` with
+        # the first words stored one by one) is the model's zero-extension `extend` (lemmas Isaac.extend_writes*)
+        return (f"\n  intro x"
+                f"\n  simp only [Ext.{G}.{fn}, ExtTie.{G}.init]"
+                f"\n  first | rw [Isaac.extend_writes8] | rw [Isaac.extend_writes4] | rw [Isaac.extend_writes2] | rw [Isaac.extend_writes1] | skip"
+                f"\n  rfl")
+    return f
+
+PROOFS.update({"hc_generate": proof_hc_generate, "hc_sixteen_steps": proof_hc_sixteen, "hc_init": proof_hc_init,
+               "hc_from_seed": proof_hc_from_seed, "isaac_generate": proof_isaac("generate"), "isaac_init": proof_isaac("init"),
+               "isaac_from_seed": proof_isaac("from_seed"), "isaac_seed_from_u64": proof_isaac("seed_from_u64")})
+
 
 HEADER = """/-
   GENERATED by tools/rs2lean.py from the current sources of the repository — do not edit.
@@ -275,18 +364,28 @@ def generate(repo, exclude=None):
             theorems += jitter_theorems(u, done)
     except Exception as e:
         report["rand_jitter"] = dict(error=repr(e))
-    try:
-        for u, order in build_units_hc(repo):
-            text, done, skipped = emit_unit(u, order, exclude.get(u.name, {}))
-            parts.append(text)
-            report[u.name] = dict(file=u.file, translated=done, skipped=skipped, shape=u.shape, seed_len=u.seed_len)
-            theorems += hc_theorems(u, done)
-    except Exception as e:
-        report["rand_hc"] = dict(error=repr(e))
+    avail = set()
+    for crate, builder, thms in (("rand_hc", build_units_hc, hc_theorems), ("rand_isaac", build_units_isaac, isaac_theorems)):
+        try:
+            for u, order in builder(repo):
+                ex = dict(exclude.get(u.name, {}))
+                for n, full in getattr(u, "extern", {}).items():
+                    if full not in avail:
+                        ex[n] = "defined in another unit, where it is not translated"
+                text, done, skipped = emit_unit(u, order, ex)
+                avail |= {f"{u.namespace}.{n}" for n in done}
+                parts.append(text)
+                report[u.name] = dict(file=u.file, translated=done, skipped=skipped, shape=u.shape, seed_len=u.seed_len)
+                if ASSERTS.get(u.name):
+                    report[u.name]["ignored_asserts"] = ASSERTS[u.name]
+                theorems += thms(u, done)
+        except Exception as e:
+            report[crate] = dict(error=repr(e))
     digest = hashlib.sha256("\n".join(parts).encode()).hexdigest()[:16]
     out = [HEADER.format(digest=digest)] + parts + ["\nnamespace ExtTie"]
     for name, stmt, props, fn in theorems:
-        out.append(f"theorem {name} : {stmt} := by {PROOFS[fn]} Ext.{name}")
+        pr = PROOFS[fn]
+        out.append(f"theorem {name} : {stmt} := by" + (pr(name) if callable(pr) else f" {pr} Ext.{name}"))
     out.append("end ExtTie\nend Rngs\n")
     return "\n".join(out), report, theorems
 
@@ -331,28 +430,175 @@ def build_units_jitter(repo):
     units.append((eu, ["stuck"]))
     return units
 
+def file_consts(f, extra=None):
+    """the integer constants of a file that are constant expressions over literals and earlier constants:
+    ({name: (type, Lean literal)}, {name: value})"""
+    vals, consts = dict(extra or {}), {}
+    for n, (tt, et) in f.consts.items():
+        try:
+            cty = ty_of_tokens(tt)
+            e = rsfront.Parser(et, {}).parse_expr_all()
+        except Exception:
+            continue
+        v = const_eval(e, vals)
+        if v is not None and (cty in INT or cty == "nat"):
+            vals[n] = v
+            consts[n] = (cty, lit_lean(v, cty))
+    return consts, vals
+
+def methods_of(f, sname, skip_traits=("fmt::Debug", "PartialEq", "Eq", "::core::cmp::PartialEq", "::core::cmp::Eq", "Clone")):
+    ms, aliases = {}, {}
+    for (trait, ty, fns, consts), types in zip(f.impls, f.impl_types):
+        if ty != sname or trait in skip_traits:
+            continue
+        for k, v in fns.items():
+            if v.body is not None:
+                if k in ms:
+                    raise Unsupported(f"two functions named {k} for {sname}")
+                ms[k] = v
+        for k, toks in types.items():
+            aliases["Self::" + k] = "".join(t[1] for t in toks)
+    return ms, aliases
+
+def add_nested(methods, parent, names, macros):
+    """nested `fn` items of `parent` become functions of the unit (called by their bare name)"""
+    if parent not in methods:
+        return
+    for n in names:
+        try:
+            fn = nested_fn(methods[parent], n, macros)
+        except Unsupported:
+            continue
+        if n in methods:
+            raise Unsupported(f"nested fn {n} clashes with a method")
+        methods[n] = fn
+
 def build_units_hc(repo):
-    """rand_hc: the message-schedule functions f1, f2 (nested in Hc128Core::init)"""
+    """rand_hc: f1, f2 (nested in Hc128Core::init; unit Hc128Fns) and Hc128Core: step_p, step_q, generate, sixteen_steps,
+    init, from_seed.  State = the model's Hc128.Core (t : Array U32, counter : Nat)."""
     path = os.path.join(repo, "rand_hc/src/hc128.rs")
     f = rsfront.load(path)
-    init = None
-    for trait, ty, fns, consts in f.impls:
-        if ty == "Hc128Core" and "init" in fns:
-            init = fns["init"]
-    if init is None:
+    consts, vals = file_consts(f)
+    TYCTX["aliases"], TYCTX["consts"] = {}, vals
+    macros = dict(f.macros)
+    methods, aliases = methods_of(f, "Hc128Core")
+    for k, toks in f.types.items():
+        aliases[k] = "".join(t[1] for t in toks)
+    if "init" not in methods:
         raise Unsupported("Hc128Core::init not found")
     ms = {}
     for n in ("f1", "f2"):
         try:
-            ms[n] = nested_fn(init, n, dict(f.macros))
+            ms[n] = nested_fn(methods["init"], n, macros)
         except Unsupported:
             pass
-    u = Unit("Hc128Fns", StructInfo("Hc128Fns", "Unit", {}), ms, {}, dict(f.macros), {}, "Rngs.Ext.Hc128Fns")
-    u.shape, u.seed_len, u.file = ("fn", 32), None, "rand_hc/src/hc128.rs"
-    return [(u, ["f1", "f2"])]
+    fu = Unit("Hc128Fns", StructInfo("Hc128Fns", "Unit", {}), ms, {}, macros, {}, "Rngs.Ext.Hc128Fns")
+    fu.shape, fu.seed_len, fu.file = ("fn", 32), None, "rand_hc/src/hc128.rs"
+    units = [(fu, ["f1", "f2"])]
+    # the core
+    fields = {n: ty_of_tokens(t) for n, t in f.structs.get("Hc128Core", [])}
+    if fields != {"t": ("arr", "u32", 1024), "counter1024": "nat"}:
+        raise Unsupported(f"Hc128Core has fields {fields}")
+    sinfo = StructInfo("Hc128Core", "Hc128.Core", {"t": (("arr", "u32", 1024), "t"), "counter1024": ("nat", "counter")})
+    prims = {"read_u32_into": prim_read_into(32), "le::read_u32_into": prim_read_into(32), "@bytes_types": ()}
+    cm = dict(methods)
+    cm.update(ms)              # f1, f2 are called by init; their definitions are those of the unit Hc128Fns
+    u = Unit("Hc128Core", sinfo, cm, consts, macros, prims, "Rngs.Ext.Hc128Core", aliases, vals)
+    u.extern = {n: "Rngs.Ext.Hc128Fns." + n for n in ms}
+    u.shape, u.seed_len, u.file = ("Hc128Core", 32), 32, "rand_hc/src/hc128.rs"
+    units.append((u, ["step_p", "step_q", "generate", "sixteen_steps", "init", "from_seed"]))
+    return units
 
 def hc_theorems(u, done):
-    return [(f"Hc128Fns.{n}", f"Ext.Hc128Fns.{n} = Hc128.{n}", ["C02"], n) for n in ("f1", "f2") if n in done]
+    if u.name == "Hc128Fns":
+        return [(f"Hc128Fns.{n}", f"Ext.Hc128Fns.{n} = Hc128.{n}", ["C02"], n) for n in ("f1", "f2") if n in done]
+    E, th = "Ext.Hc128Core", []
+    ix = "i i511 i3 i10 i12"
+    for n, m in (("step_p", "stepP"), ("step_q", "stepQ")):
+        if n in done:
+            th.append((f"Hc128Core.{n}", f"∀ st {ix}, {E}.{n} st {ix} = ((Hc128.{m} st.t {ix}).1, {{ st with t := (Hc128.{m} st.t {ix}).2 }})",
+                       ["C02"], "hc_" + n))
+    if "generate" in done:
+        th.append(("Hc128Core.generate", f"∀ st results, {E}.generate st results = Hc128.generate st results", ["C02"], "hc_generate"))
+    if "sixteen_steps" in done:
+        th.append(("Hc128Core.sixteen_steps", f"∀ st, {E}.sixteen_steps st = Hc128.sixteenSteps st", ["C02"], "hc_sixteen_steps"))
+    if "init" in done:
+        n = next((p[1][2] for p in u.sigs["init"]["params"] if is_arr(p[1])), None)
+        if n is not None and len(u.sigs["init"]["params"]) == 1 and is_arr(u.sigs["init"]["params"][0][1], flat=True):
+            xs = " ".join(f"s{i}" for i in range(n))
+            th.append(("Hc128Core.init", f"∀ {xs}, {E}.init {xs} = Hc128.init [{', '.join(f's{i}' for i in range(n))}]", ["C02"], "hc_init"))
+    if "from_seed" in done:
+        th.append(("Hc128Core.from_seed", f"∀ seed, {E}.from_seed seed = Hc128.fromSeedCore seed", ["C02", "C09"], "hc_from_seed"))
+    return th
+
+def isaac_array_alias(repo):
+    """`IsaacArray<T>` (isaac_array.rs) is a wrapper of `[T; RAND_SIZE]` with Deref/DerefMut to that array: translated as the
+    array itself.  Checked here: the struct has the single field `inner: [T; RAND_SIZE]` and deref / deref_mut return it."""
+    f = rsfront.load(os.path.join(repo, "rand_isaac/src/isaac_array.rs"))
+    st = f.structs.get("IsaacArray")
+    if st is None or [(n, "".join(t[1] for t in ty)) for n, ty in st] != [("inner", "[T;RAND_SIZE]")]:
+        raise Unsupported("IsaacArray is not a wrapper of [T; RAND_SIZE]")
+    want = {"deref": "&self.inner", "deref_mut": "&mutself.inner"}
+    seen = {}
+    for trait, ty, fns, consts in f.impls:
+        if ty == "IsaacArray":
+            for k, v in fns.items():
+                if k in want:
+                    seen[k] = "".join(t[1] for t in v.body)
+    if seen != want:
+        raise Unsupported("IsaacArray's Deref / DerefMut are not the field projections")
+    _, vals = file_consts(f)
+    return vals.get("RAND_SIZE")
+
+def build_units_isaac(repo):
+    """rand_isaac: IsaacCore (isaac.rs) and Isaac64Core (isaac64.rs): the nested fns ind, rngstep (in generate), mix (in init),
+    generate, init, from_seed, seed_from_u64.  State = the model's Isaac.Core w."""
+    units = []
+    arr_n = isaac_array_alias(repo)
+    for fname, sname, w in (("isaac", "IsaacCore", 32), ("isaac64", "Isaac64Core", 64)):
+        path = os.path.join(repo, "rand_isaac/src", fname + ".rs")
+        f = rsfront.load(path)
+        consts, vals = file_consts(f)
+        if vals.get("RAND_SIZE") != arr_n:
+            raise Unsupported("RAND_SIZE of isaac_array.rs differs")
+        macros = dict(f.macros)
+        aliases = {k: "".join(t[1] for t in toks) for k, toks in f.types.items()}
+        TYCTX["aliases"], TYCTX["consts"] = aliases, vals
+        methods, ali = methods_of(f, sname)
+        aliases.update(ali)
+        for T in (f"u{w}", "Self::Item"):
+            aliases[f"IsaacArray<{T}>"] = f"[{T};RAND_SIZE]"
+        wt = f"w{w}"
+        fields = {n: ty_of_tokens(t) for n, t in f.structs.get(sname, [])}
+        if fields != {"mem": ("arr", wt, 256), "a": wt, "b": wt, "c": wt}:
+            raise Unsupported(f"{sname} has fields {fields}")
+        sinfo = StructInfo(sname, f"Isaac.Core {w}", {"mem": (("arr", wt, 256), "mem"), "a": (wt, "a"), "b": (wt, "b"), "c": (wt, "c")})
+        add_nested(methods, "generate", ["ind", "rngstep"], macros)
+        add_nested(methods, "init", ["mix"], macros)
+        prims = {"read_u32_into": prim_read_into(32), "le::read_u32_into": prim_read_into(32),
+                 "read_u64_into": prim_read_into(64), "le::read_u64_into": prim_read_into(64), "@bytes_types": ()}
+        u = Unit(sname, sinfo, methods, consts, macros, prims, f"Rngs.Ext.{sname}", aliases, vals)
+        u.shape, u.seed_len, u.file, u.width = (sname, w), 32, f"rand_isaac/src/{fname}.rs", w
+        units.append((u, ["ind", "rngstep", "generate", "mix", "init", "from_seed", "seed_from_u64", "from_rng", "try_from_rng"]))
+    return units
+
+def isaac_theorems(u, done):
+    w, E, G = u.width, f"Ext.{u.name}", u.name
+    P = f"Isaac.params{w}"
+    th = []
+    def add(fn, stmt, props, key=None):
+        if fn in done:
+            th.append((f"{G}.{fn}", stmt, props, key or "isaac_" + fn))
+    add("ind", f"∀ mem v amount, amount < {w} → {E}.ind mem v amount = Isaac.ind mem v amount", ["C03"])
+    add("rngstep", f"∀ mem results mix a b base m m2, {E}.rngstep mem results mix a b base m m2 = "
+                   f"(let s := Isaac.rngstep {P} ⟨mem, results, a, b⟩ mix base m m2; (s.mem, s.results, s.a, s.b))", ["C03"])
+    add("mix", f"∀ a b c d e f g h, {E}.mix a b c d e f g h = "
+               f"(let o := {P}.mix ⟨a, b, c, d, e, f, g, h⟩; (o.a, o.b, o.c, o.d, o.e, o.f, o.g, o.h))", ["C03"])
+    add("generate", f"∀ st results, {E}.generate st results = Isaac.generate {P} st results", ["C03"])
+    add("init", f"∀ mem rounds, {E}.init mem rounds = Isaac.init {P} mem rounds.toNat", ["C03"])
+    add("from_seed", f"∀ seed, {E}.from_seed seed = Isaac.fromSeedCore{w} seed", ["C03", "C09"])
+    add("seed_from_u64", f"∀ x, {E}.seed_from_u64 x = Isaac.seedFromU64Core{w} x", ["C03", "C09"])
+    return th
 
 def jitter_theorems(u, done):
     th = []
